@@ -1,6 +1,7 @@
 /-
 C20 — model of `src/streaming/state.rs` (`StateStore`, file and memory backend), after fix-C20
-(checkpoint id = wall-clock millisecond + per-store sequence suffix).
+(checkpoint id = wall-clock millisecond + per-store sequence suffix) and fix-C20b (the sequence number skips every id
+under which a checkpoint file already exists: `freeSeq`; `Cfg.noSkip` = the code before that fix).
 
 * store      = `HashMap<String, StateEntry>` as an association list (invariant: keys distinct,
                proved in Lemmas.lean); an entry is (value, created_at, ttl). `updated_at` is not
@@ -21,7 +22,8 @@ C20 — model of `src/streaming/state.rs` (`StateStore`, file and memory backend
 * `checkpointSteps` / `restoreSteps` = the same procedures as the list of steps between the NUMBERED crash points of
   the code (hook `verif_crash`), `crashAt` = the directory a process killed at point k leaves, `reopen` = a new store
   opened on such a directory (`checkpoint_seq` = 0, no metadata). `ckSteps` is the expansion of `checkpointSteps`
-  (Theorems2.checkpointSteps_refine).
+  (Theorems2.checkpointSteps_refine). `checkpointStepsK … k` = the same call with the hook's crash point INSIDE `write_all`
+  (after `k` bytes; `verif_crash::arm_split`), `crashAtK` the directory a process killed there leaves (Theorems3).
 No Mathlib import.
 -/
 namespace C20
@@ -188,6 +190,7 @@ structure Cfg where
   maxCk : Nat := 10                 -- `max_checkpoints`
   defaultTtl : Option Nat := none   -- `enable_ttl` / `default_ttl`
   legacy : Bool := false            -- true: the id scheme BEFORE fix-C20 (millisecond only)
+  noSkip : Bool := false            -- true: the code BEFORE fix-C20b (the directory is not consulted when an id is chosen)
 deriving Repr, DecidableEq
 
 structure World where
@@ -222,9 +225,29 @@ inductive Out where
   | errMemory       -- restore on the memory backend
 deriving Repr, DecidableEq
 
-/-- id generation in `checkpoint` -/
+/-- `path.join(id).join("state.json").is_file()` -/
+def isFile : Option (Option (List Nat)) → Bool
+  | some (some _) => true
+  | _ => false
+
+/-- fix-C20b, `while <path>/checkpoint_<ms>_<seq>/state.json is a file { seq += 1 }`: the first sequence number from `s`
+on under which no checkpoint FILE exists. The code's loop has no bound of its own - it ends because the directory is
+finite; `fuel` = the number of directory entries is enough (Lemmas.freeSeq_free: the fuel never runs out before a free
+number is reached). -/
+def freeSeq (fs : List (Id × Option (List Nat))) (ms : Nat) : Nat → Nat → Nat
+  | 0, s => s
+  | fuel + 1, s => if isFile (fget fs ⟨ms, s⟩) then freeSeq fs ms fuel (s + 1) else s
+
+/-- id generation in `checkpoint`: wall-clock millisecond + the store's sequence number, advanced (file backend, after
+fix-C20b) past every id under which a checkpoint file already exists -/
 def newId (cfg : Cfg) (W : World) : Id :=
-  if cfg.legacy then ⟨W.clock, 0⟩ else ⟨W.clock, W.seq⟩
+  if cfg.legacy then ⟨W.clock, 0⟩
+  else if cfg.noSkip || !cfg.file then ⟨W.clock, W.seq⟩
+  else ⟨W.clock, freeSeq W.fs W.clock W.fs.length W.seq⟩
+
+/-- `self.checkpoint_seq = checkpoint_seq + 1` (one past the number the id got) -/
+def nextSeq (cfg : Cfg) (W : World) : Nat :=
+  if cfg.legacy then W.seq + 1 else (newId cfg W).seq + 1
 
 /-- the complete step sequence of one `checkpoint` call on the file backend, in code order -/
 def ckSteps (c : Codec) (cfg : Cfg) (W : World) : List FsStep :=
@@ -241,7 +264,7 @@ def retain (maxCk : Nat) (metas : List Meta) : List Meta :=
 def checkpoint (c : Codec) (cfg : Cfg) (W : World) : World × Id :=
   let i := newId cfg W
   ({ W with
-      seq := W.seq + 1,
+      seq := nextSeq cfg W,
       metas := retain cfg.maxCk (W.metas ++ [⟨i, (live W.store W.clock).length⟩]),
       fs := if cfg.file then (ckSteps c cfg W).foldl applyStep W.fs else W.fs }, i)
 
@@ -252,7 +275,7 @@ history and every earlier checkpoint's directory are what they were. (Not an `Op
 quantify over: it is the *live* counterpart of `crashFs … 1`, driven by the harness with a real I/O error.) -/
 def checkpointFailsAtCreate (cfg : Cfg) (W : World) : World :=
   { W with
-      seq := W.seq + 1,
+      seq := nextSeq cfg W,
       fs := if cfg.file then applyStep W.fs (.mkdir (newId cfg W)) else W.fs }
 
 /-- the directory as a crash after the first `n` steps of the checkpoint leaves it -/
@@ -320,7 +343,15 @@ inductive PStep where
   | writeAll (i : Id) (bytes : List Nat)    -- `file.write_all(json)`: between its two points every prefix may be on disk
   | removeAll (v : Id)                      -- `fs::remove_dir_all(old)`: unlink `state.json`, then rmdir
   | mem (label : String)                    -- bookkeeping in memory only (lost with the process)
+  | writeHead (i : Id) (bytes : List Nat) (k : Nat)  -- hook `arm_split`: `write_all(&bytes[..k])` (`k` clamped to the length)
+  | writeTail (i : Id) (bytes : List Nat) (k : Nat)  -- … and, after the crash point INSIDE the write, `write_all(&bytes[k..])`
 deriving Repr, DecidableEq
+
+/-- `write_all(&bytes[a..a+n])` on the file that holds `bytes[..a]`: it successively holds the prefixes of length
+`a+1 … a+n` (`writeSteps i bytes n` is the case `a = 0`) -/
+def segSteps (i : Id) (bytes : List Nat) (a : Nat) : Nat → List FsStep
+  | 0 => []
+  | n + 1 => segSteps i bytes a n ++ [.write i (bytes.take (a + n + 1))]
 
 /-- the atomic file-system steps a procedure step consists of (`ckSteps` is the expansion of `checkpointSteps`) -/
 def PStep.expand : PStep → List FsStep
@@ -328,6 +359,8 @@ def PStep.expand : PStep → List FsStep
   | .writeAll i bytes => writeSteps i bytes bytes.length
   | .removeAll v => [.rmFile v, .rmDir v]
   | .mem _ => []
+  | .writeHead i bytes k => segSteps i bytes 0 (min k bytes.length)
+  | .writeTail i bytes k => segSteps i bytes (min k bytes.length) (bytes.length - min k bytes.length)
 
 /-- the label the hook gives the crash point that FOLLOWS the step -/
 def PStep.label : PStep → String
@@ -339,6 +372,8 @@ def PStep.label : PStep → String
   | .writeAll _ _ => "write"
   | .removeAll _ => "rmtree"
   | .mem l => l
+  | .writeHead _ _ _ => "partial"
+  | .writeTail _ _ _ => "write"
 
 /-- `StateStore::checkpoint` on the file backend, one entry per pair of consecutive crash points:
 `begin` · create_dir_all · `mkdir` · to_string_pretty · `serialise` · File::create · `create` · write_all · `write`
@@ -347,6 +382,19 @@ def checkpointSteps (c : Codec) (cfg : Cfg) (W : World) : List PStep :=
   let i := newId cfg W
   let bytes := c.ser (live W.store W.clock)
   [.fs (.mkdir i), .mem "serialise", .fs (.create i), .writeAll i bytes, .mem "push"]
+    ++ (match victimOf cfg.maxCk W.metas i with
+        | none => []
+        | some v => [.mem "drop", .removeAll v])
+    ++ [.mem "stamp"]
+
+/-- `StateStore::checkpoint` with the hook's split write armed at byte offset `k` (`verif_crash::arm_split`): the one
+`write_all(json)` is carried out as `write_all(&json[..k])` · crash point `partial` · `write_all(&json[k..])`, so the call
+has one more numbered point — point 4, INSIDE the write, reached when exactly the first `min k len` bytes are in the file;
+the points after it are those of `checkpointSteps` shifted by one. -/
+def checkpointStepsK (c : Codec) (cfg : Cfg) (W : World) (k : Nat) : List PStep :=
+  let i := newId cfg W
+  let bytes := c.ser (live W.store W.clock)
+  [.fs (.mkdir i), .mem "serialise", .fs (.create i), .writeHead i bytes k, .writeTail i bytes k, .mem "push"]
     ++ (match victimOf cfg.maxCk W.metas i with
         | none => []
         | some v => [.mem "drop", .removeAll v])
@@ -381,6 +429,11 @@ def crashDir (steps : List PStep) (fs : List (Id × Option (List Nat))) (k : Nat
 /-- the directory after the process was killed at crash point `k` of the checkpoint about to be taken in `W` -/
 def crashAt (c : Codec) (cfg : Cfg) (W : World) (k : Nat) : List (Id × Option (List Nat)) :=
   crashDir (checkpointSteps c cfg W) W.fs k
+
+/-- the directory after the process was killed at crash point `p` of the checkpoint about to be taken in `W`, the write
+split at byte offset `k` (`p = 4`: killed inside `write_all`, after `k` bytes) -/
+def crashAtK (c : Codec) (cfg : Cfg) (W : World) (k p : Nat) : List (Id × Option (List Nat)) :=
+  crashDir (checkpointStepsK c cfg W k) W.fs p
 
 /-- number of atomic file-system steps done when crash point `k` is reached (index into `ckSteps`) -/
 def fineIndex (steps : List PStep) (k : Nat) : Nat := ((steps.take k).flatMap PStep.expand).length
